@@ -2,18 +2,20 @@
 
    Model: Model/FileConfine.v (tree file system with symbolic links, hard links and
    kernel path resolution; push / resolveWritePath / pushFile / pushDir /
-   extractTarDirectory / resolveRelToBase / ensureLinkPath as repaired on this branch;
+   ensureDirNoSymlink / removeSymlink / extractTarDirectory / resolveRelToBase /
+   ensureLinkPath as repaired on this branch;
    cfg flags select the pre-repair behaviour).  Lemmas: Proofs/FileConfine.v.
 
    view_at f p is everything an observer sees at physical location p (absent; directory with
    its permission bits; file content with its permission bits; link text): "view_at f' p =
    view_at f p for every p not below wd" says that nothing outside the working directory
    was created, overwritten, truncated, re-moded, replaced or deleted.  pres is
-   Store.PreservePermissions.  Inv is the invariant of a tree whose working directory is a
-   real directory, whose links below it are lexically confined and whose files below it
-   share no inode with the outside; it holds of any tree without links and hard links
-   (C11_example_inv) and is preserved by the store (so trees populated by the store itself
-   are covered). *)
+   Store.PreservePermissions.  Inv is the invariant of a tree whose working directory (and its
+   ancestors) are real directories and whose files below it share no inode with the outside.
+   It says nothing about symbolic links: the tree may hold any links with any targets (links
+   unpacked by the store keep the raw target of the archive; user-made links are allowed):
+   the repaired store never follows a link below the working directory, so every mutation
+   happens at the lexical location that was validated.  Inv is preserved by the store. *)
 From Oras Require Import Base.Prelude Model.FileConfine Proofs.FileConfine.
 
 (* every sequence of pushes (named blobs and archives to unpack; any titles, any entries
@@ -64,41 +66,50 @@ Theorem C11_outside_entry_no_effect :
 Proof. exact entry_outside_rejected. Qed.
 Print Assumptions C11_outside_entry_no_effect.
 
-(* the code before the repairs violates the statement; each repair is necessary *)
+(* the code before the repairs violates the statement; each repair is necessary
+   (cfg = hard-link target relative to the link / cleaned write path / no link in place of the
+   unpack directory / ensureDirNoSymlink / removeSymlink) *)
 Theorem C11_prefix_refuted : escapes cfg_prefix.
 Proof. exact prefix_escapes. Qed.
 Print Assumptions C11_prefix_refuted.
 
-Theorem C11_prefix_refuted_hardlink_cwd : escapes (mkCfg false true true true true true).
+Theorem C11_prefix_refuted_hardlink_cwd : escapes (mkCfg false true true true true).
 Proof. exact refuted_hardlink_cwd. Qed.
 Print Assumptions C11_prefix_refuted_hardlink_cwd.
 
-Theorem C11_prefix_refuted_raw_link_target : escapes (mkCfg true false true true true true).
-Proof. exact refuted_raw_target. Qed.
-Print Assumptions C11_prefix_refuted_raw_link_target.
-
-Theorem C11_prefix_refuted_unpack_through_link : escapes (mkCfg true true false true true true).
-Proof. exact refuted_title_through_link. Qed.
-Print Assumptions C11_prefix_refuted_unpack_through_link.
-
-Theorem C11_prefix_refuted_raw_absolute_title : escapes (mkCfg true true true false true true).
+Theorem C11_prefix_refuted_raw_absolute_title : escapes (mkCfg true false true true true).
 Proof. exact refuted_abs_title. Qed.
 Print Assumptions C11_prefix_refuted_raw_absolute_title.
 
-Theorem C11_prefix_refuted_hardlink_to_symlink : escapes (mkCfg true true true true false true).
-Proof. exact refuted_hardlink_symlink. Qed.
-Print Assumptions C11_prefix_refuted_hardlink_to_symlink.
-
 Theorem C11_prefix_refuted_link_replaces_working_directory :
-  lookup (st_fs (fst (pushes (mkCfg true true true true true false) false wd0 cwd0 (mkStore fs1 []) os_replace_wd))) wd0
+  lookup (st_fs (fst (pushes (mkCfg true true false true true) false wd0 cwd0 (mkStore fs1 []) os_replace_wd))) wd0
   <> Some NDir.
 Proof. exact refuted_replace_wd. Qed.
 Print Assumptions C11_prefix_refuted_link_replaces_working_directory.
 
-(* with PreservePermissions the raw link target also lets an archive re-mode a directory outside *)
+(* directories created or entered through a link (named blob below a link) *)
+Theorem C11_prefix_refuted_directory_through_link : escapes (mkCfg true true true false true).
+Proof. exact refuted_dir_through_link. Qed.
+Print Assumptions C11_prefix_refuted_directory_through_link.
+
+(* regular entry / named blob written through a final link whose raw target leaves the tree *)
+Theorem C11_prefix_refuted_write_through_link : escapes (mkCfg true true true true false).
+Proof. exact refuted_write_through_link. Qed.
+Print Assumptions C11_prefix_refuted_write_through_link.
+
+Theorem C11_prefix_refuted_blob_through_link : escapes (mkCfg true true true true false).
+Proof. exact refuted_blob_through_link. Qed.
+Print Assumptions C11_prefix_refuted_blob_through_link.
+
+(* unpack directory reached through a link (neither of the last two repairs) *)
+Theorem C11_prefix_refuted_unpack_through_link : escapes (mkCfg true true true false false).
+Proof. exact refuted_title_through_link. Qed.
+Print Assumptions C11_prefix_refuted_unpack_through_link.
+
+(* with PreservePermissions a directory entry on top of a link re-modes a directory outside *)
 Theorem C11_prefix_refuted_remode :
   inside wd0 [b "r"] = false /\
-  view_at (st_fs (fst (pushes (mkCfg true false true true true true) true wd0 cwd0 (mkStore fs0 []) os_remode))) [b "r"]
+  view_at (st_fs (fst (pushes (mkCfg true true true false true) true wd0 cwd0 (mkStore fs0 []) os_remode))) [b "r"]
   <> view_at fs0 [b "r"].
 Proof. exact refuted_remode. Qed.
 Print Assumptions C11_prefix_refuted_remode.
@@ -116,11 +127,13 @@ Proof. exact replace_wd_fixed. Qed.
 
 Example C11_example_ordinary :
   snd (run0 cfg_fixed os_ordinary) = [true; true; true] /\
-  view_at (fst (run0 cfg_fixed os_ordinary)) [b "r"; b "w"; b "t"; b "a"; b "b"; b "f"] = VFile (enc 9 384) /\
+  view_at (fst (run0 cfg_fixed os_ordinary)) [b "r"; b "w"; b "t"; b "a"; b "b"; b "f"] = VFile (enc 8 384) /\
+  view_at (fst (run0 cfg_fixed os_ordinary)) [b "r"; b "w"; b "t"; b "l"] = VFile (enc 9 420) /\
+  view_at (fst (run0 cfg_fixed os_ordinary)) [b "r"; b "w"; b "t"; b "k"] = VSym (b "a/b/s/../x") /\
   view_at (fst (run0 cfg_fixed os_ordinary)) [b "r"; b "w"; b "old"] = VFile (enc 11 104).
 Proof. exact ordinary_ok. Qed.
 
 Example C11_example_attacks_confined :
-  forall os, In os [os_hardlink_cwd; os_raw_target; os_title_through_link; os_abs_title; os_hardlink_symlink] ->
+  forall os, In os [os_hardlink_cwd; os_raw_target; os_raw_target_blob; os_title_through_link; os_abs_title; os_hardlink_symlink] ->
   forall p, inside wd0 p = false -> view_at (fst (run0 cfg_fixed os)) p = view_at fs0 p.
 Proof. exact attacks_confined_fixed. Qed.
